@@ -34,6 +34,14 @@ CLAIMED = {
           "Generated-input search over histories of significant_times / from_model (cached, uncached) / generate_isd_sequence / SRT / VTT / IMSC writer calls on one document object; the generator builds regions whose background is revealed only by animation or initial values on purpose.",
           "Trusted: vt/ref_isd.py for which empty regions paint. Histories are data (lists of operations) so the whole history shrinks as one value.",
           "DESIGN.md C14"),
+  "C06": ("Hypothesis text-profile documents x writer configurations; output parsed by independent strict SRT/WebVTT parsers and compared with the reference interpreter's visible text per significant interval",
+          "Generated-input search: number, order, millisecond times and payload lines of the cues against expected cues derived from vt/ref_isd.py; documents are shaped so that several regions hold content at once and several div/p sit under one region.",
+          "Trusted: vt/cueparse.py (self-tested), vt/cuecheck.py, vt/ref_isd.py. Significant times are taken from ttconv (C02 covers their completeness). Paragraphs with preserved white space are compared by non-space characters.",
+          "DESIGN.md C06"),
+  "C07": ("Hypothesis styled / markup-text / sub-millisecond documents x writer configurations; strict grammar parsers; per-character style runs recovered from tags vs reference computed styles; cue settings vs reference geometry",
+          "Generated-input search: grammar validity, tag balance, style runs, no tags when formatting is disabled, line/align settings, no failure on sub-millisecond intervals.",
+          "Trusted: vt/cueparse.py, vt/ref_isd.py. Known finding S-7 (style reset inside a styled parent) reported as KNOWN-FINDING. SubRip text containing markup characters: only 'does not fail'.",
+          "DESIGN.md C07"),
 }
 NOT_APPLICABLE = {}
 
